@@ -425,6 +425,31 @@ func c06(r *Report) {
 	})
 
 	r.Guard("C06.R7", "without a host name the handshake is refused: every GetCertificate callback tests the name for emptiness before issuing", func() {
+		// the configuration a tunnel is served with is built from the MITM config in force at
+		// that moment: tls.Server takes the direct result of p.mitm.TLSForHost(...), not a
+		// config remembered from an earlier tunnel (which SetMITM would not replace)
+		if hcr := r.Use("", "Proxy.handleConnectRequest"); hcr != nil {
+			n := 0
+			for _, c := range plainCalls(hcr, "crypto/tls.Server") {
+				n++
+				direct := true
+				for _, l := range resolveAll(c.Call.Args[1]) {
+					cc, isC := l.(*ssa.Call)
+					if !isC || calleeName(cc) != "(*M/mitm.Config).TLSForHost" {
+						direct = false
+						continue
+					}
+					ld, isLd := cc.Call.Args[0].(*ssa.UnOp)
+					if !isLd || !isFieldRef(ld.X, M, "Proxy", "mitm") {
+						direct = false
+					}
+				}
+				r.Decide("flow", "(*M.Proxy).handleConnectRequest: the tunnel is served with p.mitm's configuration of this moment", direct, "tls.Server(conn, p.mitm.TLSForHost(host))", "the TLS configuration of a tunnel does not come straight from the current MITM config (a per-host cache in the proxy): after SetMITM installs another CA, hosts seen before are still answered with certificates of the old one", c.Pos())
+			}
+			if n == 0 {
+				r.Undecided("(*M.Proxy).handleConnectRequest: tls.Server", "UNRESOLVED")
+			}
+		}
 		for _, f := range w.Funcs("mitm") {
 			for _, c := range plainCalls(f, "(*M/mitm.Config).cert") {
 				if f.Parent() == nil {
